@@ -43,17 +43,20 @@ Print Assumptions C10_level_beyond_top.
 Theorem C10_walk_agrees :
   forall fs roots names,
   names <> [] -> Forall (fun s => valid_name s = true) names ->
-  match import_by_names fs [] roots names with Some v => res_of_val v | None => RNone end =
+  res_of_opt (fst (import_by_names fs [] roots names)) =
   res_of_found (py_import fs roots (join_dot names)).
 Proof. exact walk_agrees. Qed.
 Print Assumptions C10_walk_agrees.
 
-(* the same with jedi's module cache, provided every cached module is what Python imports under its key *)
+(* the same with jedi's module cache (which import_module also fills, negative results included), provided
+   every cached entry is what Python imports under its key; the cache handed on has the property again *)
 Theorem C10_walk_agrees_coherent_cache :
   forall fs roots c names,
-  (forall k v, cache_get c k = Some v -> conv k (py_import fs roots (join_dot k)) = Some v) ->
+  (forall k r, cache_get c k = Some r -> conv k (py_import fs roots (join_dot k)) = r) ->
   names <> [] -> Forall (fun s => valid_name s = true) names ->
-  import_by_names fs c roots names = conv names (py_import fs roots (join_dot names)).
+  fst (import_by_names fs c roots names) = conv names (py_import fs roots (join_dot names)) /\
+  (forall k r, cache_get (snd (import_by_names fs c roots names)) k = Some r ->
+               conv k (py_import fs roots (join_dot k)) = r).
 Proof. exact walk_agrees_cache. Qed.
 Print Assumptions C10_walk_agrees_coherent_cache.
 
@@ -69,7 +72,8 @@ Theorem C10_module_import_agrees :
 Proof. exact module_import_agrees. Qed.
 Print Assumptions C10_module_import_agrees.
 
-(* `from X import x`: attribute of the package first, then the sub-module — infer and goto *)
+(* `from X import x`: attribute of the package first, then the sub-module — infer and goto; X is not the
+   analysed module itself and X.x is not an already imported ancestor package of it *)
 Theorem C10_from_import_agrees :
   forall goto fs roots self q x,
   q_name q = Some x -> q_probe q = None ->
@@ -79,6 +83,8 @@ Theorem C10_from_import_agrees :
   valid_name x = true ->
   level_ok self q ->
   py_already_imported (importer_of self) (abs_path self q ++ [x]) = false ->
+  found_file (py_import fs roots (join_dot (abs_path self q))) <> v_file self ->
+  v_file self <> [] ->
   jedi_query goto fs roots self q = py_query fs roots (importer_of self) q.
 Proof. exact from_import_agrees. Qed.
 Print Assumptions C10_from_import_agrees.
